@@ -441,7 +441,8 @@ open Percival.Model.NetbufStep Percival.Proofs.NetbufMonSound Percival.Proofs.Ne
 /-- **What the monitor reads is the typed answer.**  `Driver.Netbuf.render o` is, by definition, the tokens
 `Driver.Netbuf.l1Toks o` joined by single spaces, followed by ` | ` and the L2 part (if any).  For every typed output
 `o` — `failed`, `bad-op`, `contract`, `ok` with reader or writer state, `peek`, `ok <n>`, `spin` with any number of
-callback records, any statuses (negative ones included), any byte strings shown as `-`, hex or `#<n>:<16 hex digits>` —
+callback records, any statuses (negative ones included), any byte strings shown as `-`, hex or
+`#<n>:<16 hex digits>` —
 whose records could be printed (`OutReadable`: no `0:<a>:model-oob`) and whose shown byte strings are in the form
 `shownOf` produces (`OutCanon`: not `.hex []`, which is printed `-` exactly like `.none`), the monitor's reader
 `Driver.Netbufmon.parseAns` applied to these tokens gives exactly `Out.ans o`, and cutting the L1 part of the printed
@@ -467,7 +468,8 @@ open Percival.Model.NetbufStep Percival.Proofs.NetbufMonSound Percival.Proofs.Ne
 /- the hypotheses are satisfiable on such a line, and each is needed: `.hex []` is printed `-` and read as `.none` -/
 example : OutReadable (.spin [.succ 5 (some (.hex [1, 2])), .status (-1)] 1 2 (.hex [7, 8]) 2 NetbufRead.init
       NetbufWrite.init) ∧
-    OutCanon (.spin [.succ 5 (some (.hex [1, 2])), .status (-1)] 1 2 (.hex [7, 8]) 2 NetbufRead.init NetbufWrite.init) ∧
+    OutCanon (.spin [.succ 5 (some (.hex [1, 2])), .status (-1)] 1 2 (.hex [7, 8]) 2 NetbufRead.init
+      NetbufWrite.init) ∧
     Driver.Netbufmon.parseAns (Driver.Netbuf.l1Toks (.peek 0 (.hex []) NetbufRead.init)) ≠
       (Out.peek 0 (.hex []) NetbufRead.init).ans := by
   refine ⟨fun r hr => ?_, ⟨fun a s hm => ?_, by simp [ShownCanon]⟩, ?_⟩
@@ -517,5 +519,33 @@ example : (runOps {} [.netDeliver [1, 2, 3, 4, 5], .netEof, .rLoop 2 2 3, .wWrit
       .spin]).2.map Driver.Netbuf.l1Toks =
     [["ok"], ["ok"], ["ok"], ["ok"], ["ok"], ["ok"],
      ["spin", "r=0:5:0102,0:3:0304,1", "f=1", "peer=2:0708", "sa=2"]] := by decide +kernel
+
+open Percival.Model.NetbufStep Percival.Proofs.NetbufAns in
+/-- **The monitor executable says `ok` to every line of the model executable.**  For every sequence of input lines
+(token lists; lines that are no operation included: `pmodel netbuf` prints `bad-op` for them and `pmodel netbufmon`
+accepts exactly that), feed each line to `Driver.Netbuf.step` — whose printed line is the tokens
+`(stepToks s toks).2` joined by single spaces followed by nothing or by ` | ` and the L2 part — and give the line and
+these tokens to `Driver.Netbufmon.step`, the function `loopMon` runs: every verdict is `ok`.  This is
+`monitor_accepts_printed_run` for the step functions of the two executables themselves (`parseOp` included). -/
+theorem exec_monitor_says_ok (lines : List (List String)) :
+    verdicts {} {} lines = List.replicate lines.length "ok" ∧
+    ∀ (s : NetbufStep.St) (toks : List String),
+      (Driver.Netbuf.step s toks).1 = (stepToks s toks).1 ∧
+      ∃ l2, (Driver.Netbuf.step s toks).2 = " ".intercalate (stepToks s toks).2 ++ l2 ∧
+        (l2 = "" ∨ ∃ t, l2 = " | " ++ t) :=
+  ⟨verdicts_ok lines {} {} Proofs.NetbufMonSound.sound_init, step_eq_stepToks⟩
+
+open Percival.Model.NetbufStep Percival.Spec.NetbufMon Percival.Proofs.NetbufAns Percival.Driver in
+/- the tokens are those of real lines, and the monitor executable is not a function that says `ok` to everything: a
+`peek` line claiming three bytes where none were sent is refused -/
+example : (stepToks {} ["r_peek"]).2 = ["peek", "0", "-"] ∧
+    (Netbufmon.step {} ["r_peek"] ["peek", "3", "-"]).2 =
+      "bad peek shows 3 bytes, only 0 were sent before the end" := by
+  refine ⟨by decide +kernel, ?_⟩
+  have h3 : ("3" : String).toNat? = some 3 := Proofs.DsAns.nat_rt 3
+  have ha : Netbufmon.parseAns ["peek", "3", "-"] = .peek 3 .none := by
+    simp [Netbufmon.parseAns, Netbufmon.parseShown, h3]
+  have ho : Netbuf.parseOp ["r_peek"] = some .rPeek := by simp [Netbuf.parseOp]
+  unfold Netbufmon.step; rw [ho, ha]; decide +kernel
 
 end Percival.C07
